@@ -26,7 +26,7 @@ func init() {
 		"strings.ToLower":     modelStrFn("tolower", true),
 		"strings.ToUpper":     modelStrFn("toupper", true),
 		"strings.SplitSeq":    modelSplitSeq,
-		"strings.Join":        modelFreshString("join"),
+		"strings.Join":        modelJoin,
 		"strings.NewReader":   modelOpaqueResult,
 		"strconv.ParseInt":    modelParseInt,
 		"strconv.ParseUint":   modelParseUint,
@@ -165,6 +165,7 @@ func modelTrimSpace(x *Exec, fr *Frame, st *State, pc *preparedCall, k func(*Sta
 	st.assumeRaw(Forall([]*Term{j}, Implies(And(Le(s.Off, j), Lt(j, r.Off)), isSpaceTerm(Select(s.Arr, j)))))
 	j2 := x.qvar("j")
 	st.assumeRaw(Forall([]*Term{j2}, Implies(And(Le(Add(r.Off, r.Len), j2), Lt(j2, Add(s.Off, s.Len))), isSpaceTerm(Select(s.Arr, j2)))))
+	st.assumeRaw(Eq(x.strID(st, r), App("strfn_trimspace", SInt, x.strID(st, s))))
 	ret1(st, k, r)
 }
 
@@ -183,7 +184,9 @@ func modelHasPrefix(x *Exec, fr *Frame, st *State, pc *preparedCall, k func(*Sta
 		ret1(st, k, BoolV{Var(x.fresh("hasprefix"), SBool)})
 		return
 	}
-	ret1(st, k, BoolV{hasPrefixTerm(x, s, p)})
+	c := hasPrefixTerm(x, s, p)
+	st.assumeRaw(Eq(c, App("strfn_hasprefix", SBool, x.strID(st, s), x.strID(st, x.strLit(p)))))
+	ret1(st, k, BoolV{c})
 }
 
 func modelTrimPrefix(x *Exec, fr *Frame, st *State, pc *preparedCall, k func(*State, []Value)) {
@@ -205,7 +208,11 @@ func modelCutPrefix(x *Exec, fr *Frame, st *State, pc *preparedCall, k func(*Sta
 	}
 	c := hasPrefixTerm(x, s, p)
 	n := IntLit(int64(len(p)))
-	k(st, []Value{StrV{Arr: s.Arr, Off: Ite(c, Add(s.Off, n), s.Off), Len: Ite(c, Sub(s.Len, n), s.Len)}, BoolV{c}})
+	after := StrV{Arr: s.Arr, Off: Ite(c, Add(s.Off, n), s.Off), Len: Ite(c, Sub(s.Len, n), s.Len)}
+	pid := x.strID(st, x.strLit(p))
+	st.assumeRaw(Eq(c, App("strfn_hasprefix", SBool, x.strID(st, s), pid)))
+	st.assumeRaw(Implies(c, Eq(x.strID(st, after), App("strfn_cutprefix", SInt, x.strID(st, s), pid))))
+	k(st, []Value{after, BoolV{c}})
 }
 
 // uninterpreted string-to-string functions: result identified by strid only
@@ -243,13 +250,34 @@ func modelSplitSeq(x *Exec, fr *Frame, st *State, pc *preparedCall, k func(*Stat
 	s := pc.args[0].(StrV)
 	id := Var(x.fresh("splitseq"), SInt)
 	st.assumeRaw(Gt(id, IntLit(0)))
-	x.iterSources[id.Name] = iterSource{kind: "splitseq", str: s}
+	pieces := x.splitPieces(st, s, pc.args[1].(StrV))
+	st.ghost["split"] = pieces
+	x.iterSources[id.Name] = iterSource{kind: "splitseq", str: s, pieces: pieces}
 	ret1(st, k, FuncV{Sym: id, Sig: pc.fn.Type().(*types.Signature).Results().At(0).Type().Underlying().(*types.Signature)})
 }
 
 type iterSource struct {
-	kind string
-	str  StrV
+	kind   string
+	str    StrV
+	pieces SliceV
+}
+
+// splitPieces is the abstract result of splitting s by sep: at least one
+// piece, every piece a sub-view of s, and the identity of piece k is the
+// uninterpreted function splitat(id(s), id(sep), k); the count is splitlen(id(s), id(sep)).
+func (x *Exec) splitPieces(st *State, s, sep StrV) SliceV {
+	z := x.freshValue(st, types.NewSlice(types.Typ[types.String]), "pieces").(SliceV)
+	z.Off = IntLit(0)
+	sid, sepid := x.strID(st, s), x.strID(st, sep)
+	st.assumeRaw(Ge(z.Len, IntLit(1)))
+	st.assumeRaw(Eq(z.Len, App("strfn_splitlen", SInt, sid, sepid)))
+	j := x.qvar("j")
+	offs, lens, arrs := z.Leaves[".off"], z.Leaves[".len"], z.Leaves[".arr"]
+	piece := StrV{Arr: Select(arrs, j), Off: Select(offs, j), Len: Select(lens, j)}
+	st.assumeRaw(Forall([]*Term{j}, Implies(And(Le(IntLit(0), j), Lt(j, z.Len)),
+		And(Le(s.Off, Select(offs, j)), Le(IntLit(0), Select(lens, j)), Le(Add(Select(offs, j), Select(lens, j)), Add(s.Off, s.Len)), Eq(Select(arrs, j), s.Arr),
+			Eq(x.strID(st, piece), App("strfn_splitat", SInt, sid, sepid, j))))))
+	return z
 }
 
 // decimal syntax predicate: optional sign, at least one digit, digits only
@@ -279,6 +307,7 @@ func modelParseInt(x *Exec, fr *Frame, st *State, pc *preparedCall, k func(*Stat
 	st.assumeRaw(Ge(errT, IntLit(0)))
 	okc := And(decimalOK(x, s, true), inRange(kd, v))
 	st.assumeRaw(Eq(Eq(errT, IntLit(0)), okc))
+	st.assumeRaw(Eq(Eq(errT, IntLit(0)), App(fmt.Sprintf("parseok_s%d", bits), SBool, x.strID(st, s))))
 	res := Var(x.fresh("parsed"), SInt)
 	st.assumeRaw(inRange(kd, res))
 	st.assumeRaw(Implies(Eq(errT, IntLit(0)), Eq(res, v)))
@@ -677,4 +706,43 @@ func (x *Exec) lhsTypeOrExpr(fr *Frame, e ast.Expr, info *types.Info) types.Type
 		return x.resolveType(t)
 	}
 	return nil
+}
+
+// strings.Join(elems, sep).  Content is abstract; what is assumed:
+//   no element  -> "" ; one element -> that element;
+//   splitting the result by sep yields exactly the pieces of the elements
+//   (every piece of every element occurs, and every piece of the result comes from some element).
+func modelJoin(x *Exec, fr *Frame, st *State, pc *preparedCall, k func(*State, []Value)) {
+	elems, ok := pc.args[0].(SliceV)
+	if !ok {
+		ret1(st, k, x.freshValue(st, types.Typ[types.String], "join"))
+		return
+	}
+	sep := pc.args[1].(StrV)
+	r := x.freshValue(st, types.Typ[types.String], "join").(StrV)
+	rid, sepid := x.strID(st, r), x.strID(st, sep)
+	at := func(i *Term) StrV {
+		v := x.sliceAt(elems, i).(StrV)
+		return v
+	}
+	st.assumeRaw(Implies(Eq(elems.Len, IntLit(0)), Eq(r.Len, IntLit(0))))
+	e0 := at(IntLit(0))
+	st.assumeRaw(Implies(Eq(elems.Len, IntLit(1)), And(Eq(rid, x.strID(st, e0)), Eq(r.Len, e0.Len))))
+	i, kk := x.qvar("ji"), x.qvar("jk")
+	ei := at(i)
+	eid := x.strID(st, ei)
+	pos := App("strfn_joinpos", SInt, rid, i, kk)
+	st.assumeRaw(Forall([]*Term{i, kk}, Implies(
+		And(Le(IntLit(0), i), Lt(i, elems.Len), Le(IntLit(0), kk), Lt(kk, App("strfn_splitlen", SInt, eid, sepid))),
+		And(Le(IntLit(0), pos), Lt(pos, App("strfn_splitlen", SInt, rid, sepid)),
+			Eq(App("strfn_splitat", SInt, rid, sepid, pos), App("strfn_splitat", SInt, eid, sepid, kk))))))
+	j := x.qvar("jj")
+	li := App("strfn_joinline", SInt, rid, j)
+	lk := App("strfn_joinidx", SInt, rid, j)
+	eli := at(li)
+	st.assumeRaw(Forall([]*Term{j}, Implies(
+		And(Le(IntLit(0), j), Lt(j, App("strfn_splitlen", SInt, rid, sepid)), Gt(elems.Len, IntLit(0))),
+		And(Le(IntLit(0), li), Lt(li, elems.Len), Le(IntLit(0), lk), Lt(lk, App("strfn_splitlen", SInt, x.strID(st, eli), sepid)),
+			Eq(App("strfn_splitat", SInt, rid, sepid, j), App("strfn_splitat", SInt, x.strID(st, eli), sepid, lk))))))
+	ret1(st, k, r)
 }
